@@ -54,27 +54,31 @@ func (f *Letx) Call(s *slip.Scope, args slip.List, depth int) (result slip.Objec
 	ns := s.NewScope()
 	d2 := depth + 1
 	for _, binding := range bindings {
+		var (
+			sym   slip.Symbol
+			value slip.Object
+		)
 		switch tb := binding.(type) {
 		case slip.Symbol:
-			ns.Let(tb, nil)
+			sym = tb
 		case slip.List:
 			if len(tb) < 1 {
 				slip.TypePanic(s, depth, "let* local variable binding", nil, "list", "symbol")
 			}
-			var sym slip.Symbol
 			if sym, ok = tb[0].(slip.Symbol); !ok {
 				slip.TypePanic(s, depth, "let* local variable binding", tb[0], "symbol")
 			}
 			if 1 < len(tb) {
-				// Use the original scope to avoid using the new bindings since
-				// they are evaluated in apparent parallel.
-				ns.Let(sym, slip.EvalArg(ns, tb, 1, d2))
-			} else {
-				ns.Let(sym, nil)
+				// The init form sees the bindings made so far.
+				value = slip.EvalArg(ns, tb, 1, d2)
 			}
 		default:
 			slip.TypePanic(s, depth, "let* binding", f, "list", "symbol")
 		}
+		// Each binding gets a scope of its own so that a closure created
+		// by an earlier init form does not see a later binding.
+		ns = ns.NewScope()
+		ns.Let(sym, value)
 	}
 	for i := 1; i < len(args); i++ {
 		result = slip.EvalArg(ns, args, i, d2)
